@@ -75,7 +75,7 @@ func NewMachine(prog *ssa.Program, ex *Explorer) *Machine {
 
 var defaultOpaque = []string{"fmt", "os", "reflect", "runtime", "sync", "sync/atomic", "syscall", "time", "log",
 	"io/ioutil", "encoding/json", "regexp", "bufio", "math/big", "math/rand", "unsafe", "strconv", "io/fs",
-	"path/filepath", "os/exec", "net", "net/http", "context", "runtime/debug", "internal/bytealg", "internal/cpu",
+	"os/exec", "net", "net/http", "context", "runtime/debug", "internal/bytealg", "internal/cpu",
 	"internal/abi", "internal/race", "internal/godebug", "internal/byteorder", "testing", "flag", "math",
 	"internal/reflectlite", "internal/oserror", "internal/itoa", "unique", "iter", "text/tabwriter"}
 
